@@ -26,6 +26,16 @@ CHECKS['C15'] = {
              'slicing = SubSeq); callee contract of levenshtein_distance (result >= 0) proved under C13. Window splitting in process_lines is not under contract.'),
 }
 
+CHECKS['C19'] = {
+    'level': 'proof',
+    'technique': 'deductive verification on a heap model (field arrays, references, frame obligations) of the real merge_layouts; bounded run-time contract as cross-check',
+    'text': ('merge_layouts is proved for any number of engines and lines: per line the transcription/logits/characters are those of the first '
+             'arg-max engine (scan invariant over BESTC/ARGB), the maximum is recorded when positive, no other object and no other field changes '
+             '(48 obligations incl. a syntactic frame obligation). Self-merge is decided by the bounded tier only.'),
+    'note': ('Trusted: pyvc; get_confidences opaque (pure function of transcription/logits/characters/logit_coords); zip(*iterators) modelled as '
+             'position-wise tuples LINE(e,p); distinct line objects assumed in the unbounded contract (aliasing covered by the bounded self-merge cases).'),
+}
+
 NOT_APPLICABLE = {
     'C20': ('equality up to round-off of float tensors produced by torch C++ kernels through module-resident caches across calls: no contract '
             'within reach can state it over reals, no finite domain makes a bounded check exhaustive; a random differential test would be a different technique (DESIGN.md §6)'),
